@@ -285,7 +285,7 @@ def run(ctx):
     n_rows = 0
     for r in rows:
         if "error" in r:
-            ctx.violation("measurement crashed on %s: %s" % (r["label"], r["error"][-600:]), {"config": r["cfg"], "traceback": r["error"]}, no_input=True)
+            ctx.violation("measurement crashed on %s: %s" % (r["label"], r["error"][-600:]), {"config": r["cfg"], "traceback": r["error"]}, no_input=not S.lib_failed(r["error"]))
             continue
         if "skipped" in r:
             ctx.hist("rows_skipped", r["skipped"].split(":")[0][:60])
@@ -329,7 +329,7 @@ def run(ctx):
     exact = {"scale_pow2": [0, 0], "shift_impl": [0, 0]}
     for t in res:
         if "error" in t:
-            ctx.violation("paired-run job crashed on %s: %s" % (t["label"], t["error"][-600:]), {"config": t["cfg"], "traceback": t["error"]}, no_input=True)
+            ctx.violation("paired-run job crashed on %s: %s" % (t["label"], t["error"][-600:]), {"config": t["cfg"], "traceback": t["error"]}, no_input=not S.lib_failed(t["error"]))
             continue
         if "skipped" in t:
             ctx.hist("skipped", t["skipped"][:50])
